@@ -177,6 +177,29 @@ def words(rng, quick):
     return out
 
 
+
+def ambiguous_tokens(rng, quick):
+    """a trimmed token with SEVERAL results (an operator that is a prefix of another: Any('<', '<=')) between two tokens:
+    the whitespace behind each alternative has to be skipped and judged for that alternative"""
+    out = []
+    lt, eq = ('rune', 60), ('rune', 61)
+    op = ('any', [lt, G.seqof(lt, eq)])
+    op2 = ('any', [G.seqof(lt, eq), lt])
+    gaps = ws_strings(1 if quick else 2) + [[SP, SP], [SP, TAB, SP]] + [rand_gap(rng, 3) for _ in range(2 if quick else 10)]
+    for o in (op, op2):
+        for mode in ("WsSpacesNl", "WsSpaces"):
+            for trimmed in (('rtrim', mode, o), G.seqof(o, ('ltrim', mode, ('rune', B)))):
+                for g in gaps:
+                    for mid in ([60], [60, 61]):
+                        if trimmed[0] == 'rtrim':
+                            root = G.seqof(('rune', A), trimmed, ('rune', B))
+                        else:
+                            root = G.seqof(('rune', A), trimmed)
+                        out.append((G.case_text([], root, [A] + mid + g + [B], offset=rng.choice([1, 2, 7]), flags=0),
+                                    {"stream": "ambiguous-token", "nontrivial": len(g) > 0, "k3": False, "outcome": "n/a"}))
+    return out
+
+
 def generate(rng, tier):
     quick = tier == "quick"
     out = []
@@ -238,6 +261,7 @@ def generate(rng, tier):
         out.append(mk(t, gaps, "mismatch", rng, data=data))
     out += ctx_further(rng)
     out += words(rng, quick)
+    out += ambiguous_tokens(rng, quick)
     if not quick:
         out += ctx_further(rng) + ctx_further(rng)
     return out
